@@ -479,6 +479,9 @@ func (e *Engine) loopEnter(st *State, fr *Frame, b *ssa.BasicBlock, li *loopInfo
 	ls := e.loopSpec(fr, li)
 	e.bindPhis(st, fr, b, predIdx)
 	fr.loopPre[b] = st.snapshot()
+	if ri := e.rangeIndexInv(st, fr, b); ri != "" {
+		e.emit(st, "inv-init", fmt.Sprintf("inv-init#%s.%d.range-index", fr.fn.Name(), li.ordinal), ri, "range loop index stays within -1 .. len-1")
+	}
 	if ls != nil {
 		env := e.invEnv(st, fr, b)
 		for i, inv := range ls.Invariants {
@@ -516,6 +519,9 @@ func (e *Engine) loopEnter(st *State, fr *Frame, b *ssa.BasicBlock, li *loopInfo
 		if p.Comment != "" {
 			fr.vars[p.Comment] = fv
 		}
+	}
+	if ri := e.rangeIndexInv(st, fr, b); ri != "" {
+		st.assume(ri)
 	}
 	if ls != nil {
 		env := e.invEnv(st, fr, b)
@@ -624,6 +630,9 @@ func (e *Engine) applyModSet(st *State, ms *modSet, resolve func(ssa.Value) *Val
 func (e *Engine) loopBack(st *State, fr *Frame, b *ssa.BasicBlock, li *loopInfo, predIdx int) {
 	ls := e.loopSpec(fr, li)
 	e.bindPhis(st, fr, b, predIdx)
+	if ri := e.rangeIndexInv(st, fr, b); ri != "" {
+		e.emit(st, "inv-keep", fmt.Sprintf("inv-keep#%s.%d.range-index", fr.fn.Name(), li.ordinal), ri, "range loop index stays within -1 .. len-1")
+	}
 	if ls == nil {
 		return
 	}
